@@ -996,6 +996,93 @@ theorem nodup_mainLoop (s : State) (cmd : Option (Option Graph)) (h : NoDup s) :
     · exact nodup_of_pool rfl h2
     · exact nodup_loopBody _ _ h2
 
+theorem nodup_eraseHistory (s : State) (p : Int) (n : String) (h : NoDup s) : NoDup (eraseHistory s p n) :=
+  nodup_of_pool rfl h
+
+theorem nodup_standDown (g : Graph) (p : Int) (n : String) (st : State) (c : Int × String) (h : NoDup st) :
+    NoDup (standDown g p n st c).1 := by
+  unfold standDown
+  split
+  · exact h
+  · split
+    · exact h
+    · simp only
+      split
+      · exact nodup_put _ _ h
+      · split
+        · exact nodup_put _ _ (nodup_put _ _ h)
+        · exact nodup_eraseHistory _ _ _ (nodup_remove _ _ _ (nodup_put _ _ (nodup_put _ _ h)))
+
+theorem nodup_standDownAll (g : Graph) (p : Int) (n : String) (cs : List (Int × String)) (s : State)
+    (h : NoDup s) : NoDup (standDownAll g p n s cs).1 := by
+  unfold standDownAll
+  have hfold : ∀ (l : List (Int × String)) (acc : State × Bool), NoDup acc.1 →
+      NoDup (l.foldl (fun (acc : State × Bool) c =>
+        ((standDown g p n acc.1 c).1, acc.2 || (standDown g p n acc.1 c).2)) acc).1 := by
+    intro l
+    induction l with
+    | nil => intro acc ha; exact ha
+    | cons c l ih =>
+      intro acc ha
+      simp only [List.foldl_cons]
+      apply ih
+      exact nodup_standDown g p n acc.1 c ha
+  exact hfold cs (s, false) h
+
+theorem nodup_removeTail (g : Graph) (s : State) (b : Bool) (h : NoDup s) : NoDup (removeTail g s b) := by
+  unfold removeTail
+  split
+  · split
+    · exact nodup_releaseRunahead _ _ (nodup_computeRunahead _ _ _ h)
+    · exact nodup_computeRunahead _ _ _ h
+  · exact h
+
+theorem nodup_removeTarget (g : Graph) (s : State) (p : Int) (n : String) (h : NoDup s) :
+    NoDup (removeTarget g s p n) := by
+  unfold removeTarget
+  split
+  · exact nodup_remove _ _ _ h
+  · exact h
+
+theorem nodup_removeTask (g : Graph) (s : State) (p : Int) (n : String) (order : List (Int × String))
+    (h : NoDup s) : NoDup (removeTask g s p n order) := by
+  unfold removeTask
+  split
+  · exact h
+  · simp only
+    split
+    · exact h
+    · apply nodup_removeTail
+      apply nodup_flushDb
+      apply nodup_eraseHistory
+      apply nodup_standDownAll
+      apply nodup_removeTarget
+      exact nodup_flushDb _ h
+
+theorem nodup_forceOutput (g : Graph) (s : State) (x : Proxy) (msg : String) (h : NoDup s) :
+    NoDup (forceOutput g s x msg) := by
+  unfold forceOutput
+  split
+  · exact h
+  · exact nodup_spawnChildren _ _ _ _ _ _ (nodup_put _ _ h)
+
+theorem nodup_setTail (s : State) (p : Int) (n : String) (h : NoDup s) : NoDup (setTail s p n) := by
+  unfold setTail
+  split
+  · split
+    · exact nodup_put _ _ h
+    · exact h
+  · exact h
+
+theorem nodup_setOut (g : Graph) (s : State) (p : Int) (n : String) (trig : String) (h : NoDup s) :
+    NoDup (setOut g s p n trig) := by
+  unfold setOut
+  split
+  · exact h
+  · split
+    · exact nodup_setTail _ _ _ h
+    · exact nodup_setTail _ _ _ (nodup_forceOutput _ _ _ _ h)
+
 theorem nodup_step (s : State) (op : Op) (h : NoDup s) : NoDup (step s op) := by
   unfold step
   have hc : NoDup (clearOp s) := nodup_of_pool rfl h
@@ -1021,6 +1108,8 @@ theorem nodup_step (s : State) (op : Op) (h : NoDup s) : NoDup (step s op) := by
     · split
       · exact nodup_mainLoop _ _ hc
       · exact nodup_reloadCmd _ _ hc
+  | rm p n order => exact nodup_removeTask _ _ _ _ _ hc
+  | setOut p n trig => exact nodup_setOut _ _ _ _ _ hc
 
 /-- in every state of every run - any flags, instance graph and op list (reloads with any new graphs included) -
 no two proxies share (point, name) -/
